@@ -6,8 +6,10 @@ import (
 	"os"
 	"os/exec"
 	"path/filepath"
+	"runtime"
 	"runtime/debug"
 	"sort"
+	"strconv"
 	"strings"
 	"sync"
 	"time"
@@ -76,7 +78,31 @@ type Session struct {
 	Verbose    bool
 }
 
+// memory watchdog: symbolic execution of an over-sized harness is stopped (and reported as inconclusive)
+// before the kernel kills the process. Limit in MiB from GOSMT_MEM_MB (default 14000).
+var watchdogOnce sync.Once
+
+func startWatchdog() {
+	watchdogOnce.Do(func() {
+		limit := uint64(14000)
+		if v, err := strconv.Atoi(os.Getenv("GOSMT_MEM_MB")); err == nil && v > 0 {
+			limit = uint64(v)
+		}
+		go func() {
+			var ms runtime.MemStats
+			for {
+				time.Sleep(500 * time.Millisecond)
+				runtime.ReadMemStats(&ms)
+				if ms.HeapAlloc>>20 > limit {
+					symex.ResourceExceeded.Store(true)
+				}
+			}
+		}()
+	})
+}
+
 func NewSession(repo, harnessDir string) (*Session, error) {
+	startWatchdog()
 	scratch, err := os.MkdirTemp("", "gosmt-")
 	if err != nil {
 		return nil, err
@@ -538,3 +564,9 @@ func lastLines(s string, n int) string {
 }
 
 var _ ssa.Instruction
+
+// release drops the encoding of a harness whose obligations have been discharged (its result stays).
+func (p *Prepared) release() {
+	p.ex = nil
+	p.jobs = nil
+}
